@@ -178,7 +178,7 @@ Example C15_ex_collision :
 Proof. vm_compute. reflexivity. Qed.
 
 (* ---- symbol names (BasicGarnishData) ---- *)
-From GV Require Import Proofs.C15.SymbolNames.
+From GV Require Import Proofs.C15.SymbolNames Proofs.C15.SymbolNamesAll.
 
 (* the binary search of search.rs on a table in nondecreasing key order
    (duplicate keys allowed: registering a name twice leaves two entries):
@@ -211,13 +211,22 @@ Proof.
 Qed.
 Print Assumptions C15_symbol_lookup.
 
-(* the full statement: any history from a fresh store with progressing
-   settings in which every parse_add_symbol registers a name of dom under its
-   hash (header = number of chars); a name registered in ops1 reads back
-   after ops1 and after any continuation ops2; a value no registered name
-   hashes to yields Ok None *)
-Definition C15_symbol_name_readback_full_statement : Prop :=
-  forall (h : list N -> N) (dom : list N -> Prop),
+(* every operation of the history vocabulary except parse_add_symbol leaves
+   the symbol-table block exactly as it is *)
+Theorem C15_other_ops_keep_symbols : forall o s s' r, G s -> is_symbol_op o = false -> bstep o s = Ok (s', r) ->
+  window s' BSym = window s BSym.
+Proof. exact other_ops_keep_symbols. Qed.
+Print Assumptions C15_other_ops_keep_symbols.
+
+(* the headline: any history (the whole vocabulary of C15_readback) from a
+   fresh store with progressing settings, in which every parse_add_symbol
+   registers a name of dom under its hash with header = number of chars
+   (names for which str::len() is the char count); h does not collide on
+   dom.  A name registered in ops1 reads back after ops1 and after any
+   continuation ops2 -- the binary search over the re-sorted table finds an
+   entry and the text it points to is unchanged -- and a value that no
+   registered name hashes to yields Ok None, not an error *)
+Theorem C15_symbol_name_readback : forall (h : list N -> N) (dom : list N -> Prop),
   (forall v w, dom v -> dom w -> h v = h w -> v = w) ->
   forall si sj ss se sd sc ops1 ops2,
   progressing si -> progressing sj -> progressing ss -> progressing se -> progressing sd -> progressing sc ->
@@ -228,52 +237,33 @@ Definition C15_symbol_name_readback_full_statement : Prop :=
     (forall name, registers h ops1 name ->
        get_symbol_string (h name) s1 = Ok (Some name) /\ get_symbol_string (h name) s2 = Ok (Some name)) /\
     (forall k, (forall name, registers h (ops1 ++ ops2) name -> h name <> k) -> get_symbol_string k s2 = Ok None).
-
-(* proved: the full statement for histories whose operations other than
-   parse_add_symbol are the ones of [sym_neutral] (instructions, jump table,
-   expression symbols, custom, every single-cell data adder, text, bytes,
-   cursor).  Missing for the full statement: the fact "window s' BSym =
-   window s BSym" for the list-construction, register/value/frame-stack and
-   jump-table-patch operations (C15_step gives for them only that members
-   stay members) *)
-Theorem C15_symbol_name_readback_partial : forall (h : list N -> N) (dom : list N -> Prop),
-  (forall v w, dom v -> dom w -> h v = h w -> v = w) ->
-  forall si sj ss se sd sc ops1 ops2,
-  progressing si -> progressing sj -> progressing ss -> progressing se -> progressing sd -> progressing sc ->
-  Forall (sym_op_ok h dom) (ops1 ++ ops2) ->
-  exists s0 s1 s2 r1 r2,
-    new_with_settings si sj ss se sd sc = Ok (s0, Done tt) /\
-    run bstep ops1 s0 = Ok (s1, r1) /\ run bstep ops2 s1 = Ok (s2, r2) /\
-    (forall name, registers h ops1 name ->
-       get_symbol_string (h name) s1 = Ok (Some name) /\ get_symbol_string (h name) s2 = Ok (Some name)) /\
-    (forall k, (forall name, registers h (ops1 ++ ops2) name -> h name <> k) -> get_symbol_string k s2 = Ok None).
-Proof. exact symbol_name_readback. Qed.
-Print Assumptions C15_symbol_name_readback_partial.
+Proof. exact symbol_name_readback_all. Qed.
+Print Assumptions C15_symbol_name_readback.
 
 (* non-vacuity: three names registered in non-sorted order of their symbol
-   values (98, 99, 97), the first one twice, interleaved with pushes; with
+   values (98, 99, 97), the first one twice, interleaved with pushes, a list
+   and the stacks; with
    growth by one cell every push reallocates the heap *)
 Definition ex_sym_hash (name : list N) : N := match name with x :: _ => x | [] => 0%N end.
 Definition ex_sym_dom (name : list N) : Prop := In name [[98%N]; [99%N; 97%N]; [97%N; 98%N; 99%N]].
 Definition ex_sym_ops1 : list op :=
   [OSymbol 98%N 1 [98%N]; ONumber (SInt 7%Z); OInstr I_Add None; OSymbol 99%N 2 [99%N; 97%N]; OText 2 [120%N; 121%N];
-   OExprSym 5%N 1; OSymbol 97%N 3 [97%N; 98%N; 99%N]].
-Definition ex_sym_ops2 : list op := [OPair 0 0; OSymbol 98%N 1 [98%N]; OJump 3; OBytes [1%N; 2%N]].
+   OExprSym 5%N 1; OListStart 1; OListAdd 11 3; OListEnd 11; ORegPush 3; OSymbol 97%N 3 [97%N; 98%N; 99%N]].
+Definition ex_sym_ops2 : list op :=
+  [OPair 0 0; OFramePush 2; OSymbol 98%N 1 [98%N]; OJump 3; OValPush 3; ORegPop; OBytes [1%N; 2%N]].
 
 Example C15_ex_symbol_hypotheses :
   (forall v w, ex_sym_dom v -> ex_sym_dom w -> ex_sym_hash v = ex_sym_hash w -> v = w) /\
-  Forall (sym_op_ok ex_sym_hash ex_sym_dom) (ex_sym_ops1 ++ ex_sym_ops2) /\
+  (forall sym bl name, In (OSymbol sym bl name) (ex_sym_ops1 ++ ex_sym_ops2) ->
+     ex_sym_dom name /\ sym = ex_sym_hash name /\ bl = length name) /\
   registers ex_sym_hash ex_sym_ops1 [97%N; 98%N; 99%N].
 Proof.
   split; [|split].
   - intros v w Hv Hw. unfold ex_sym_dom in *. cbn [In] in Hv, Hw.
     destruct Hv as [<-|[<-|[<-|[]]]]; destruct Hw as [<-|[<-|[<-|[]]]]; cbn; intro E; try reflexivity; discriminate E.
-  - unfold ex_sym_ops1, ex_sym_ops2. cbn [app].
-    repeat (apply Forall_cons;
-      [first [left; reflexivity
-             | match goal with |- sym_op_ok _ _ (OSymbol _ _ ?n) =>
-                 right; exists n; split; [unfold ex_sym_dom; cbn; tauto|reflexivity] end]|]).
-    apply Forall_nil.
+  - intros sym bl name Hin. unfold ex_sym_ops1, ex_sym_ops2 in Hin. cbn [app In] in Hin.
+    repeat (destruct Hin as [Hin|Hin]; [try discriminate Hin; inversion Hin; subst; unfold ex_sym_dom; cbn; tauto|]).
+    destruct Hin.
   - unfold registers. cbn. tauto.
 Qed.
 
@@ -285,13 +275,13 @@ Example C15_ex_symbol_history :
       | Ok (s1, _) =>
           match run bstep ex_sym_ops2 s1 with
           | Ok (s2, _) =>
-              window s1 BSym = [CAssociativeItem 97%N 12; CAssociativeItem 98%N 1; CAssociativeItem 99%N 5] /\
+              window s1 BSym = [CAssociativeItem 97%N 16; CAssociativeItem 98%N 1; CAssociativeItem 99%N 5] /\
               get_symbol_string 97%N s1 = Ok (Some [97%N; 98%N; 99%N]) /\
               get_symbol_string 98%N s2 = Ok (Some [98%N]) /\
               get_symbol_string 99%N s2 = Ok (Some [99%N; 97%N]) /\
               get_symbol_string 97%N s2 = Ok (Some [97%N; 98%N; 99%N]) /\
               get_symbol_string 100%N s2 = Ok None /\
-              length (window s2 BSym) = 4 /\ length (heap s0) = 0 /\ length (heap s2) = 30
+              length (window s2 BSym) = 4 /\ length (heap s0) = 0 /\ length (heap s2) = 37
           | _ => False
           end
       | _ => False
